@@ -70,6 +70,16 @@ func typesTrace(en *Env, t int, ncmd int) int {
 	}
 	typeNames := map[byte]string{0: "string", 1: "hash", 2: "set", 3: "list", 4: "zset"}
 	names := []string{"Set", "Get", "Del", "Type", "HSet", "HGet", "HDel", "SAdd", "SIsMember", "SRem", "LPush", "RPush", "LPop", "RPop", "ZAdd", "ZScore"}
+	// value sizes: mostly small; one in six within a few hundred bytes of the file-size limit (the record, or the
+	// container's metadata record plus the element record, then no longer fits one data file)
+	vsize := func() int {
+		if cfg.Limit <= 70000 && r.Intn(6) == 0 {
+			if n := int(cfg.Limit) - 300 + r.Intn(450); n > 0 {
+				return n
+			}
+		}
+		return 1 + r.Intn(40)
+	}
 	// exec runs one command on the given service and returns its event and the outcome of the guard
 	exec := func(sv *datatype.DataTypeService, k int, c string, x int) (h.Ev, string) {
 		ev := h.Ev{"ev": "cmd", "k": k, "c": c, "x": 0, "v": 0, "sc": 0, "exp": false, "err": "ok", "b": false, "n": 0, "vres": 0, "tname": ""}
@@ -77,7 +87,7 @@ func typesTrace(en *Env, t int, ncmd int) int {
 		name := h.Guard(h.CallTimeout, func() error {
 			switch c {
 			case "Set":
-				vid, vb := vs.New(1 + r.Intn(40))
+				vid, vb := vs.New(vsize())
 				ttl := []time.Duration{0, -time.Second, time.Hour}[r.Intn(3)]
 				ev["v"], ev["exp"] = vid, ttl < 0
 				ev["err"] = typesErr(sv.Set(key, vb, ttl))
@@ -96,7 +106,7 @@ func typesTrace(en *Env, t int, ncmd int) int {
 					ev["tname"] = typeNames[tb]
 				}
 			case "HSet":
-				vid, vb := vs.New(1 + r.Intn(40))
+				vid, vb := vs.New(vsize())
 				ev["x"], ev["v"] = x, vid
 				b, err := sv.HSet(key, elemOf(x), vb)
 				ev["b"], ev["err"] = b, typesErr(err)
